@@ -69,7 +69,7 @@ CHECKS = {
                 "real runs over generated trees (files, directories, symlinks, fifos, non-UTF-8 / CR / LF names, missing items) "
                 "with stat / open / readdir / read / readlink failures injected by strace at calls located in a reference trace, "
                 "singly and in pairs: exit status, error and warning counts and the published path set vs the extracted model; the "
-                "property and 'the source is never written' are evaluated on the real run.",
+                "property and 'the source is never written' are evaluated on the real run. Half of the runs start on a storage that already holds an older group with a limit of one group (rotation due in the same run); items carry hooks that fail by exit status or by dying from a signal.",
         "note": "Partial: strace keeps one injection per system call name, so pairs use two different calls; abort-publishes-nothing "
                 "is observed on the real run (and is C03's subject on the op model). We run as root: EACCES is injected.",
         "technique": "Coq proof on a faulted tree walk + system-call fault injection against the real binary",
@@ -82,7 +82,7 @@ CHECKS = {
                 "cannot be started or exits non-zero, or an unpreparable item, makes the run fail without skipping the item. Tied to "
                 "the code by tracing real runs over generated item lists (hooks absent / succeeding / failing / unstartable, items "
                 "missing / overlapping / aborting with an injected read error): the observed order of execve of the hook commands "
-                "and of opens below each item root, the hook log and the exit status vs the extracted model.",
+                "and of opens below each item root, the hook log and the exit status vs the extracted model. Some items come into being only in their own (succeeding) before hook; failing hooks exit non-zero or die from SIGKILL / SIGTERM / SIGSEGV.",
         "note": "'reads of an item's paths' are observed as openat / readlink at or below the item root by the main thread; bash is "
                 "trusted to run the configured command.",
         "technique": "Coq proof (trace shape by induction over items) + system-call ordering traces of the real binary",
@@ -126,7 +126,7 @@ CHECKS = {
                 "round trips for mtime (whole i64 range), ids, permission bits. Tied to the code by histories of real `vsb backup` "
                 "runs under a fake clock with every retained backup restored by the real `vsb restore` and compared field by field "
                 "with what its run read, plus the run / rotation / restore models compared with the decoded storage and the real "
-                "restore along the way.",
+                "restore along the way. The histories include identity corner cases (a different file of the same size and nanosecond mtime renamed over a path; an in-place rewrite whose mtime changes only below the second) and a tree of hundreds of 1..4096-byte files plus a large one, so that file data straddles the decompressor's 128 KiB blocks.",
         "note": "Assumptions of the property carried by the theorem: a fingerprint hit means unchanged content, distinct backup names "
                 "per group (clock not going backwards), fault-free unchanged trees. Hash = content in the model (SHA-512 assumed "
                 "collision-free). Partial: tar/zstd byte-level fidelity and the effects of chown/chmod/utimensat are observed, not "
@@ -141,7 +141,7 @@ CHECKS = {
                 "runs; with unreadable manifests a run adds no damage of its own. Tied to the code by real run histories (rotation "
                 "with unchanged files, content moving / returning, same-identity size changes, a garbage manifest mid-group): the "
                 "decoded manifest and archive of every new backup are compared with the extracted model, and the property is "
-                "evaluated on every backup present after every run.",
+                "evaluated on every backup present after every run. Also: a targeted history in which the only unique record of some content becomes unreadable while a later backup holds an extern record for it and the content then appears under a new path; and scheduled concurrent-writer runs (content replaced between the two read passes, a copy of the old content in a later item).",
         "note": "Hash = content in the model. Directory order is taken from os.listdir on the unchanged directory. F6 (fingerprint "
                 "shortcut ignoring a size change) found and repaired.",
         "technique": "Coq proof (fold-with-accumulator invariant over manifests) + differential histories against the real binary",
@@ -164,7 +164,7 @@ CHECKS = {
                 "an empty file's data; add_file does not touch the reader for an empty file or a fingerprint hit. Tied to the code "
                 "by duplication-heavy real run histories: decoded unique/extern flags and entry sizes vs the extracted model, and "
                 "per-path byte counts of read(2) on source files from an strace of every run vs 0 / 1x / 2x the file size as the "
-                "dedup decision predicts.",
+                "dedup decision predicts. Also targeted histories in which content leaves the tree for one or two runs and returns while its group still stores it.",
         "note": "Source files static during runs; strace completeness assumed (paths whose open is missing from the trace are "
                 "skipped and counted).",
         "technique": "Coq proof + differential histories with system-call read counting",
@@ -197,7 +197,7 @@ CHECKS = {
                 "restoring them with the real `vsb restore`, and comparing exit status and the complete restored tree (bytes, "
                 "modes, owners, mtimes) with the extracted model; path functions compared exhaustively over short strings; the "
                 "property itself is re-evaluated on every real result (incl. truncated / deleted files, storage untouched, "
-                "nothing outside the restore directory, traversal members end to end).",
+                "nothing outside the restore directory, traversal members end to end). The creation calls of a third of the real restores are traced: every directory is made with mode 0700, every file with O_CREAT|O_EXCL and mode 0600; generated backups contain deep duplicates (parents pre-created before their own entries); manifests spanning several compression blocks are cut off in the middle or followed by garbage.",
         "note": "Hash = content in the model (SHA-512 assumed collision-free on generated contents); tar/zstd fidelity and "
                 "chown/chmod/utimensat effects are observed, not proved; symlink-in-the-middle traversal is out of scope as the "
                 "property says. Four defects found here were repaired in /repo (F2, F5, F7, F9).",
@@ -242,7 +242,7 @@ CHECKS = {
                 "well-formed item (paths with spaces, negative mtimes, u64/i128 ranges) and whole manifests through the "
                 "BufRead::lines model; the encoding is injective. Tied to the code by comparing the real MetadataWriter / "
                 "MetadataReader (through zstd) with the extracted model on generated items and mutated lines, and by reading the "
-                "writer's output with an independent parser of the documented format.",
+                "writer's output with an independent parser of the documented format. Scheduled concurrent-writer runs also replace the file by rename before it is opened: a file that did not change while it was read must have a truthful line (size, SHA-512, device:inode:mtime of the source file); stable_file_truthful is the model-level statement.",
         "note": "Partial: tar/zstd decodability with standard tools is observed (independent decoder on real runs: entry/line "
                 "alignment, unique-prefix hashes, extern entries empty, truthful size/hash/fingerprint, 0600/0700 modes), not "
                 "proved; UTF-8 validity of lines is outside the byte-level model.",
